@@ -13,6 +13,7 @@ import (
 	"strconv"
 	"strings"
 	"unicode"
+	"unicode/utf8"
 
 	"golang.org/x/tools/go/ssa"
 )
@@ -812,7 +813,24 @@ func lenV(v value) value {
 		if x.bytes {
 			return len(x.cps)
 		}
-		panic(unsupported("byte length of rune vector"))
+		// the UTF-8 length of a code-point vector: 1..4 bytes per code point (Sigma holds no
+		// surrogates; an invalid code point would encode as U+FFFD, 3 bytes, as well)
+		sum := IntT(0)
+		concrete := true
+		for _, c := range x.cps {
+			if c.Op != "const" {
+				concrete = false
+			}
+			sum = Add(sum, Ite(Lt(c, IntT(0x80)), IntT(1), Ite(Lt(c, IntT(0x800)), IntT(2), Ite(Lt(c, IntT(0x10000)), IntT(3), IntT(4)))))
+		}
+		if concrete {
+			n := 0
+			for _, c := range x.cps {
+				n += utf8.RuneLen(rune(c.I))
+			}
+			return n
+		}
+		return termOrInt(sum)
 	case string:
 		return len(x)
 	case *Term:
